@@ -26,27 +26,50 @@ def jt_behaviours(tier, tag="jt", maxlen=None):
     return path, st
 
 
-def run_replay_with_crash_isolation(exe, args, outdir, res, what):
-    """Runs a replay sub-command; a crash (signal) is attributed to the case in flight,
-    reported, and the run continues after it."""
-    infl = os.path.join(outdir, "inflight")
-    skip = 0
-    crashes = 0
-    while True:
-        rc, out, err = run_vh(exe, args + ["--skip-to", skip], inflight=infl)
-        if rc == 0:
-            break
-        cid, hx = read_inflight(infl)
-        if rc > 0 and rc != 101 or cid is None:
-            sys.stderr.write(err[-3000:])
-            raise ToolError("harness failed rc=%s" % rc)
-        crashes += 1
-        res.add_mismatch({"suite": what, "kind": "crash", "rc": rc, "case": cid, "bytes_hex": hx,
-                          "why": "process died (rc %s) while running case %s: %s" % (rc, cid, err[-300:])})
-        skip = cid + 1
-        if crashes > 5:
-            break
-    return json.load(open(os.path.join(outdir, "summary.json")))
+def run_replay_with_crash_isolation(exe, args, outdir, res, what, nshards=16):
+    """Runs a replay sub-command in `nshards` parallel worker processes; a crash (signal) is attributed
+    to the case in flight, reported, and the shard continues after it.  Returns the merged summary."""
+    import concurrent.futures
+
+    def shard(i):
+        infl = os.path.join(outdir, "inflight.%d" % i)
+        skip = 0
+        crashes = []
+        while True:
+            rc, out, err = run_vh(exe, args + ["--skip-to", skip, "--shard", i, "--nshards", nshards], inflight=infl)
+            if rc == 0:
+                break
+            cid, hx = read_inflight(infl)
+            if (rc > 0 and rc not in (101, 134)) or cid is None:
+                sys.stderr.write(err[-3000:])
+                raise ToolError("harness failed rc=%s" % rc)
+            crashes.append({"suite": what, "class": "crash", "kind": "crash", "rc": rc, "case": cid, "bytes_hex": hx,
+                            "bytes_lossy": bytes.fromhex(hx).decode("utf-8", "replace"),
+                            "why": "process died (rc %s) while running case %s: %s" % (rc, cid, err[-300:])})
+            skip = cid + 1
+            if len(crashes) > 20:
+                raise ToolError("too many crashes in one shard")
+        return json.load(open(os.path.join(outdir, "summary.%d.json" % i))), crashes
+
+    merged = None
+    with concurrent.futures.ThreadPoolExecutor(max_workers=nshards) as ex:
+        for summ, crashes in ex.map(shard, range(nshards)):
+            for c in crashes:
+                res.add_mismatch(c)
+            if merged is None:
+                merged = summ
+                continue
+            for k in ("cases", "evaluations", "nontrivial", "panics", "value_checks", "leak_checks"):
+                merged[k] = merged.get(k, 0) + summ.get(k, 0)
+            for k, v in summ["per_ep"].items():
+                m = merged["per_ep"].setdefault(k, {"ok": 0, "err": 0})
+                m["ok"] += v["ok"]
+                m["err"] += v["err"]
+            for k, v in summ["per_kind"].items():
+                merged["per_kind"][k] = merged["per_kind"].get(k, 0) + v
+            merged["mismatches"] += summ["mismatches"]
+            merged["samples"] += summ["samples"]
+    return merged
 
 
 def jt_replay(prop, tier, seed, res, exe=None, classes=("verdict", "panic", "crash")):
